@@ -57,8 +57,12 @@ fn judge(x: &str, s: &Setting, z: &Sanitizer, st: &mut Stats) -> Option<(String,
         // statement: digits of a purely numeric input without leading zeros, "" for anything else.
         // (white-space padded input is left open: DESIGN A.10)
         if x.trim() != x {
+            // padded input: the statement leaves open whether the padding is trimmed first, so a padded number may
+            // come out as its digits or as "" - but nothing else, and padded non-numbers (incl. white space only) give ""
+            let t = x.trim();
             st.inc("unspecified_cases");
-            return None;
+            let ok = out.is_empty() || (!san::uint(t).is_empty() && out == san::uint(t));
+            return (!ok).then(|| ("uint_mismatch".to_string(), format!("got {out:?} for padded input; allowed: \"\"{}", if san::uint(t).is_empty() { String::new() } else { format!(" or {:?}", san::uint(t)) })));
         }
         let want = san::uint(x);
         st.inc("clause_uint");
@@ -174,7 +178,7 @@ fn main() {
     // integer sanitiser on its own alphabet (sign characters, white space, non-ASCII digit) and on
     // long digit strings around the u32/u64/u128 boundaries (with and without leading zeros)
     let ui = sets.iter().position(|s| s.preset == Some("uint")).unwrap();
-    let sigma_uint: Vec<&str> = vec!["0", "1", "9", "+", "-", " ", "a", ".", "٣"];
+    let sigma_uint: Vec<&str> = vec!["0", "1", "9", "+", "-", " ", "\t", "a", ".", "٣"];
     let su = for_each_string(&sigma_uint, if ctx.quick() { 5 } else { 7 }, |x, _n, st| {
         st.inc("strings");
         st.inc("evaluations");
